@@ -914,7 +914,11 @@ func GenSpec(t *rapid.T, o Opts) Spec {
 			ns = 0
 		default:
 			v := rapid.OneOf(rapid.IntRange(0, 2047), rapid.IntRange(0, 500), rapid.SampledFrom([]int{0, 31, 32, 63, 64, 2015, 2016, 2046, 2047})).Draw(t, "sysnum")
-			s.Sys = append(s.Sys, Sys{Text: strconv.Itoa(v), Num: int64(v)})
+			txt := strconv.Itoa(v)
+			if rapid.IntRange(0, 5).Draw(t, "leadingzero") == 0 {
+				txt = pick(t, "zeros", []string{"0", "00", "000"}) + txt // decimal all the same (auditctl reads it with strtol(.., 10))
+			}
+			s.Sys = append(s.Sys, Sys{Text: txt, Num: int64(v)})
 		}
 	}
 	s.Keys = genKeys(t, o)
